@@ -15,7 +15,7 @@ import lib
 from lib import clist, cstr, cbool, cz
 
 warnings.filterwarnings("ignore")
-N = {"quick": dict(strings=260, literals=160, exprs=260, pipes=70, corner=150, search=500),
+N = {"quick": dict(strings=260, literals=160, exprs=220, pipes=45, corner=95, search=400),
      "thorough": dict(strings=6000, literals=3000, exprs=5000, pipes=1200, corner=2500, search=6000)}
 PER_FILE = 350
 _ENV = {}
@@ -489,7 +489,13 @@ def val_of(V):
     raise ValueError(k)
 
 
+BIN_DUNDER = {"+": "__add__", "-": "__sub__", "*": "__mul__", "/": "__truediv__", "//": "__floordiv__", "%": "__mod__", "**": "__pow__",
+              "==": "__eq__", "!=": "__ne__", "<": "__lt__", "<=": "__le__", ">": "__gt__", ">=": "__ge__"}
+
+
 def term_of(T):
+    """T-form -> Term, built the way a user builds term objects: through the operators and methods of the Term API
+    (`-a`, `a ** b`, `a.maximum(b)`, ...), never through the raw Expression constructor"""
     er = env()["er"]
     k = T[0]
     if k == "col":
@@ -500,7 +506,21 @@ def term_of(T):
         return er.ListTerm([er.Value(val_of(v)) for v in T[1]])
     if k == "dict":
         return er.DictTerm({val_of(a): val_of(b) for a, b in T[1]})
-    return er.Expression(T[1], [term_of(a) for a in T[4]], inline=bool(T[2]), method=bool(T[3]))
+    op, args = T[1], [term_of(a) for a in T[4]]
+    if T[2]:                                   # inline operator
+        if len(args) == 1:
+            if op != "-":
+                raise ValueError("unary " + op)
+            return -args[0]
+        r = args[0]
+        for a in args[1:]:
+            if op in ("and", "or"):
+                raise ValueError("and / or have no operator in the Term API")
+            r = getattr(r, BIN_DUNDER[op])(a)
+        return r
+    if op == "fmax":
+        return args[0].fmax(args[1])
+    return getattr(args[0], op)(*args[1:])
 
 
 def decode_expr(v):
@@ -721,7 +741,7 @@ def gen_term(rng, colty, d=2):
     a = gen_term(rng, colty, d - 1)
     b = gen_term(rng, colty, d - 1)
     if r < 0.45:
-        return ["op", rng.choice(["+", "-", "*", "/", "**", "==", "<", "and", "or", "%", "//"]), True, False, [a, b]]
+        return ["op", rng.choice(["+", "-", "*", "/", "**", "==", "<", "%", "//"]), True, False, [a, b]]
     if r < 0.55:
         return ["op", "+", True, False, [a, b, gen_term(rng, colty, d - 1)]]
     if r < 0.68:
@@ -972,14 +992,17 @@ def special_pipelines():
 
 
 # ================================================================================================ the oracle (real code)
-def variants(p):
-    """(name, producer of the printed text); every way the API prints a pipeline"""
+def variants(p, which=None):
+    """(name, producer of the printed text); every way the API prints a pipeline.  `which`: restrict to these names"""
     E = env()
     vs = [("to_python", lambda: p.to_python()), ("to_python_indent", lambda: p.to_python(indent=4)),
           ("pretty", lambda: p.to_python(pretty=True)), ("repr", lambda: repr(p)), ("str", lambda: str(p))]
     if E["black"] is not None:
         vs.append(("black_narrow", lambda: p.to_python(pretty=True, black_mode=E["black"].FileMode(line_length=40))))
-    return vs
+    return [v for v in vs if which is None or v[0] in which]
+
+
+FAST_VARIANTS = ("to_python", "repr")          # black is slow: the other variants are run on a third of the pipelines in the quick tier
 
 
 def corner_frames(rng, p):
@@ -1046,7 +1069,7 @@ def causes_of(p):
     return sorted(found)
 
 
-def oracle(p, rng, frames=None):
+def oracle(p, rng, frames=None, which=None):
     """-> list of failures: dicts {variant, kind, detail, text}"""
     E = env()
     fails = []
@@ -1071,7 +1094,7 @@ def oracle(p, rng, frames=None):
             why = E["pipes"].frames_equiv(res_p[1], res_q[1], check_col_order=True, check_row_order=True)
             if why is not None:
                 fails.append({"variant": name, "kind": "result_differs", "detail": why, "text": text})
-    for name, mk in variants(p):
+    for name, mk in variants(p, which):
         t = safe(mk)
         if t[0] != "ok":
             fails.append({"variant": name, "kind": "print_raises", "detail": t[1], "text": None})
@@ -1150,9 +1173,23 @@ def shrink_script(script, fails):
     return cur
 
 
+LISTED_CAUSES = ("non_identifier_column", "infinite_constant", "nan_constant", "negative_zero_constant", "list_of_at_most_one_element")
+
+
+def signature(fail, causes):
+    """the cause that explains the failure: a cause without a listed finding first (so that it is reported), else the first listed one"""
+    unlisted = [c for c in causes if c not in LISTED_CAUSES]
+    cause = unlisted[0] if unlisted else (causes[0] if causes else "none")
+    return {"oracle": "roundtrip", "cause": cause, "failure": fail["kind"] if fail["kind"] in ("rebuild_raises", "print_raises") else "differs"}
+
+
 def report(chk, script, fail, causes, rng_seed):
-    """one oracle failure -> impl_violation (after shrinking the script)"""
+    """one oracle failure -> impl_violation (after shrinking the script, unless a listed finding already matches it)"""
     import random
+    sig = signature(fail, causes)
+    for f in chk.known:
+        if lib.match_sig(f.get("signature", {}), sig):
+            return chk.impl_violation(f["what"], {"kind": "oracle", "script": script}, sig)
 
     def still_fails(s):
         p = build(s)
@@ -1170,12 +1207,10 @@ def report(chk, script, fail, causes, rng_seed):
         f2 = next((f for f in fs if f["variant"] == fail["variant"] and f["kind"] == fail["kind"]), fail)
     except Exception:
         f2 = fail
-    cause = causes[0] if len(causes) == 1 else ("none" if not causes else "+".join(causes))
     what = (f"a printed pipeline does not rebuild to an equal pipeline with identical results: {f2['variant']} / {f2['kind']} ({f2['detail'][:160]})")
     replay = {"kind": "oracle", "script": small, "variant": f2["variant"], "failure": f2["kind"], "detail": f2["detail"], "text": f2.get("text"), "frame_seed": rng_seed,
               "expected": "eval_da_ops(text) == p, p == that, identical to_sql and Pandas results", "causes": causes}
-    sig = {"oracle": "roundtrip", "cause": cause, "failure": f2["kind"] if f2["kind"] in ("rebuild_raises", "print_raises") else "differs"}
-    return chk.impl_violation(what, replay, sig)
+    return chk.impl_violation(what, replay, signature(f2, causes))
 
 
 # ================================================================================================ the run
@@ -1348,7 +1383,9 @@ def run(chk):
             chk.dist("node_" + nd.node_name)
         oracle_stats["pipelines"] += 1
         seed = rng.randrange(1 << 30)
-        fails, st = oracle(p, random.Random(seed), frames)
+        which = None if (tier == "thorough" or origin in ("corpus", "special") or rng.random() < 0.34) else FAST_VARIANTS
+        fails, st = oracle(p, random.Random(seed), frames, which)
+        oracle_stats["variants_all" if which is None else "variants_fast"] = oracle_stats.get("variants_all" if which is None else "variants_fast", 0) + 1
         oracle_stats["evaluated_on_pandas"] += int(st["evaluated"])
         oracle_stats["sql_generated"] += int(st["sql"])
         causes = causes_of(p)
@@ -1371,8 +1408,8 @@ def run(chk):
         except Unsupported as u:
             chk.dist("pipeline_outside_model:" + str(u).split(" ")[0])
             continue
-        if any(set(str(c) for c in nd.column_names) & set(keyword.kwlist) for nd in walk_nodes(p)) and _uses_keyword_column(p):
-            chk.dist("pipeline_outside_model:keyword_column_in_expression")
+        if _uses_keyword_column(p):
+            chk.dist("pipeline_outside_model:keyword_or_non_ascii_column_in_expression")
             continue
         all_floats |= fl
         n_modelled += 1
@@ -1444,7 +1481,8 @@ def _uses_keyword_column(p):
 
     def term(t):
         if isinstance(t, er.ColumnReference):
-            return t.column_name in keyword.kwlist
+            n = t.column_name
+            return n in keyword.kwlist or (re.fullmatch(r"[^\W\d]\w*", n) is not None and not n.isascii())
         if isinstance(t, er.Expression):
             return any(term(a) for a in t.args)
         return False
